@@ -169,7 +169,7 @@ func encryptSM2EC(c *sm2Curve, pub *ecdsa.PublicKey, random io.Reader, msg []byt
 		if err != nil {
 			return nil, err
 		}
-		C2, err := Q.ScalarMult(Q, k.Bytes(c.N))
+		C2, err := c.newPoint().ScalarMult(Q, k.Bytes(c.N))
 		if err != nil {
 			return nil, err
 		}
